@@ -416,7 +416,7 @@ def g1_add(a, b):
     return (x3, (lam * (x1 - x3) - y1) % P)
 
 
-def g1_mul(k, pt):
+def g1_mul_affine(k, pt):
     r = None
     if k < 0:
         k, pt = -k, g1_neg(pt)
@@ -426,6 +426,87 @@ def g1_mul(k, pt):
         pt = g1_add(pt, pt)
         k >>= 1
     return r
+
+
+class _FpOps(object):
+    zero, one = 0, 1
+    add = staticmethod(lambda a, b: (a + b) % P)
+    sub = staticmethod(lambda a, b: (a - b) % P)
+    mul = staticmethod(lambda a, b: a * b % P)
+    sqr = staticmethod(lambda a: a * a % P)
+    inv = staticmethod(fp_inv)
+
+
+class _Fp2Ops(object):
+    zero, one = F2_ZERO, F2_ONE
+    add = staticmethod(f2_add)
+    sub = staticmethod(f2_sub)
+    mul = staticmethod(f2_mul)
+    sqr = staticmethod(f2_sqr)
+    inv = staticmethod(f2_inv)
+
+
+def _jac_dbl(F, X, Y, Z):
+    """a = 0 short Weierstrass doubling in Jacobian coordinates"""
+    if Z == F.zero or Y == F.zero:
+        return F.one, F.one, F.zero
+    A = F.sqr(X)
+    Bq = F.sqr(Y)
+    C = F.sqr(Bq)
+    t = F.sub(F.sub(F.sqr(F.add(X, Bq)), A), C)
+    D = F.add(t, t)
+    E = F.add(F.add(A, A), A)
+    X3 = F.sub(F.sqr(E), F.add(D, D))
+    C8 = F.add(C, C)
+    C8 = F.add(C8, C8)
+    C8 = F.add(C8, C8)
+    Y3 = F.sub(F.mul(E, F.sub(D, X3)), C8)
+    YZ = F.mul(Y, Z)
+    return X3, Y3, F.add(YZ, YZ)
+
+
+def _jac_madd(F, X1, Y1, Z1, x2, y2):
+    """Jacobian + affine"""
+    if Z1 == F.zero:
+        return x2, y2, F.one
+    Z2 = F.sqr(Z1)
+    U2 = F.mul(x2, Z2)
+    S2 = F.mul(y2, F.mul(Z2, Z1))
+    H = F.sub(U2, X1)
+    r = F.sub(S2, Y1)
+    if H == F.zero:
+        if r == F.zero:
+            return _jac_dbl(F, X1, Y1, Z1)
+        return F.one, F.one, F.zero
+    H2 = F.sqr(H)
+    H3 = F.mul(H2, H)
+    V = F.mul(X1, H2)
+    X3 = F.sub(F.sub(F.sqr(r), H3), F.add(V, V))
+    Y3 = F.sub(F.mul(r, F.sub(V, X3)), F.mul(Y1, H3))
+    return X3, Y3, F.mul(Z1, H)
+
+
+def _jac_mul(F, k, pt, neg):
+    if pt is None or k == 0:
+        return None
+    if k < 0:
+        k, pt = -k, neg(pt)
+    x, y = pt
+    X, Y, Z = F.one, F.one, F.zero
+    for bit in bin(k)[2:]:
+        X, Y, Z = _jac_dbl(F, X, Y, Z)
+        if bit == '1':
+            X, Y, Z = _jac_madd(F, X, Y, Z, x, y)
+    if Z == F.zero:
+        return None
+    zi = F.inv(Z)
+    zi2 = F.sqr(zi)
+    return (F.mul(X, zi2), F.mul(Y, F.mul(zi2, zi)))
+
+
+def g1_mul(k, pt):
+    """[k]pt; Jacobian ladder with one inversion (selftest() compares it with the affine double-and-add)."""
+    return _jac_mul(_FpOps, k, pt, g1_neg)
 
 
 def g1_bytes(pt):
@@ -502,7 +583,7 @@ def g2_add(a, b):
     return (x3, f2_sub(f2_mul(lam, f2_sub(x1, x3)), y1))
 
 
-def g2_mul(k, pt):
+def g2_mul_affine(k, pt):
     r = None
     if k < 0:
         k, pt = -k, g2_neg(pt)
@@ -512,6 +593,10 @@ def g2_mul(k, pt):
         pt = g2_add(pt, pt)
         k >>= 1
     return r
+
+
+def g2_mul(k, pt):
+    return _jac_mul(_Fp2Ops, k, pt, g2_neg)
 
 
 def g2_bytes(pt):
@@ -783,6 +868,10 @@ def selftest(full=True):
     assert g1_on_curve(P1) and g2_on_curve(P2)
     assert g1_mul(N, P1) is None and g1_mul(N - 1, P1) == g1_neg(P1)
     assert g2_mul(N, P2) is None
+    for k in (1, 2, 3, N - 2, 0xDEADBEEF12345678 << 130):
+        assert g1_mul(k, P1) == g1_mul_affine(k, P1) and g2_mul(k, P2) == g2_mul_affine(k, P2)
+    q = g1_mul_affine(12345, P1)
+    assert g1_mul(N - 7, q) == g1_mul_affine(N - 7, q) and g1_mul(0, q) is None and g1_mul(-3, q) == g1_neg(g1_add(q, g1_add(q, q)))
     if _HAVE_HASHLIB_SM3:
         for m in (b'', b'abc', b'x' * 200):
             assert hashlib.new('sm3', m).digest() == _refsm3.sm3(m)
@@ -809,6 +898,7 @@ def selftest(full=True):
     a = tuple(rnd.randrange(P) for _ in range(12))
     b = tuple(rnd.randrange(P) for _ in range(12))
     assert f12_from_tower(f12_to_tower(a)) == a
+    assert f12_mul(a, F12_ONE) == a and f12_mul(a, F12_ZERO) == F12_ZERO
     assert f12_from_bytes(f12_to_bytes(a)) == a
     assert f12_frob(a, 1) == f12_pow(a, P)
     assert f12_frob(f12_mul(a, b), 3) == f12_mul(f12_frob(a, 3), f12_frob(b, 3))
